@@ -319,9 +319,13 @@ def mutate(rng, kind, d):
             return sanitize_objecttype(d)
         if r < 0.75:
             cur = d['regexHard']
-            d['regexHard'] = rng.choice([None, 'a', 'a|b', 'a|b|c', 'ab', 'b|a', '', 'a|'])
-            if d['regexHard'] == cur:
-                d['regexHard'] = 'a' if cur != 'a' else 'a|b'
+            if cur and rng.random() < 0.5:
+                # extend the expression by one or several alternatives
+                d['regexHard'] = cur + rng.choice(['|x', '|x|y', '|x|y|z', '|(p|q)'])
+            else:
+                d['regexHard'] = rng.choice([None, 'a', 'a|b', 'a|b|c', 'ab', 'b|a', '', 'a|'])
+                if d['regexHard'] == cur:
+                    d['regexHard'] = 'a' if cur != 'a' else 'a|b'
         else:
             d['dataType'] = rng.choice(['string:0:mc:u', 'enum:a:b', 'enum:a:b:c', 'enum:a:bc', 'enum:a:bc:d', 'number:int',
                                         'enum:b:a', 'string:0:mc'])
